@@ -3,15 +3,19 @@ CONSTANTS
  Pkgs = {"aa", "bb"}
  MaxRuns = 2
  Vers <- V2
+ Mode = "text"
  MaxLinesPerPkg = 1
 VIEW View
 INVARIANT TypeOK
 INVARIANT LabelsOk
 INVARIANT RecordEqualsWhatWasInstalled
+INVARIANT StoredRecordCurrent
+INVARIANT StoredEqualsWhatWasInstalled
 PROPERTY NothingInstalledUnlessAllowed
 PROPERTY ForeignNeverTouched
 PROPERTY OwnUpdatedOnlyOnPinChange
 PROPERTY MissingInstalledAsSelected
 PROPERTY OnlyDecidedMove
 PROPERTY RecordFollowsInstall
+PROPERTY RestartKeepsRecord
 CHECK_DEADLOCK FALSE
